@@ -320,8 +320,8 @@ Definition p_attr_args (k : akind) (s : list Z) : lres (list avalue) :=
          end
        | AkTwo => let* (v, r) := tok raw_prop r in let* (_, r) := expect [44] r in let* (c, r) := tok raw_const r in
                   LOk [AvStr (to_str v); AvStr (to_str c)] r
-       | AkMulti => let* (v, r) := tok raw_prop r in let* (vs, r) := p_props_rest (length r) r in LOk (AvStr (to_str v) :: vs) r
-       | AkTransform => p_pairs (length r) r
+       | AkMulti => let* (v, r) := tok raw_prop r in let* (vs, r) := p_props_rest (S (length r)) r in LOk (AvStr (to_str v) :: vs) r
+       | AkTransform => p_pairs (S (length r)) r
        | AkZero => LOk [] r
        end) in
     let* (_, r) := expect [41] r in
